@@ -95,6 +95,19 @@ def run(ctx):
             for kind, msg in res:
                 ctx.violation(dict(kind=kind, last=inst["prog"][-1]["op"], fns=sorted({s["f"] for s in inst["prog"] if s["op"] == "ptw"})),
                               "%s: %s" % (cc.describe(inst["prog"]), msg), replay=dict(program=inst))
+    # the same programs through the other implementations (JaxOperator, MultiLinearEinsum, JaxLikelihoodEnergyOperator, op[key])
+    balt = cc.Builder(alt=True)
+    altops = {"mul", "vdot", "gauss", "untag", "getitem"}
+    alts = [i for i in progs if len(i["prog"]) <= 3 and any(s["op"] in altops or (s["op"] == "ptw" and s["f"] in cc.JAXF) for s in i["prog"])]
+    alts = alts if not ctx.quick else alts[ctx.seed % 3::3]
+    with quiet():
+        for inst in alts:
+            ctx.case("alt:" + json.dumps(inst["prog"], sort_keys=True))
+            res, n = check_program(balt, inst)
+            for kind, msg in res:
+                ctx.violation(dict(kind=kind, last=inst["prog"][-1]["op"], impl="jax/einsum", fns=sorted({s["f"] for s in inst["prog"] if s["op"] == "ptw"})),
+                              "[JaxOperator / MultiLinearEinsum implementation] %s: %s" % (cc.describe(inst["prog"]), msg), replay=dict(program=inst, alt=True))
+    ctx.notes["alt_programs"] = len(alts)
     if tot < len(progs):
         raise tlcmod.MachineryError("too few evaluation points survived: %d for %d programs" % (tot, len(progs)))
     ctx.traces += len(progs)
@@ -105,7 +118,7 @@ def run(ctx):
 
 
 def replay(ctx, doc):
-    b = cc.Builder()
+    b = cc.Builder(alt=bool(doc["case"].get("alt")))
     inst = doc["case"]["program"]
     with quiet():
         res, _ = check_program(b, inst)
